@@ -33,7 +33,7 @@ func checkC13(c *Ctx, r *Report) {
 	r.Exhaustive = true
 	x := &c13{c: c, r: r, authMW: map[*ssa.Function]string{}}
 	r.rule("C13.O1", "every call of a gin registration method in the module has a receiver that traces to a protected group", 5)
-	r.rule("C13.O2", "every group reaching a registration is protected by a dominating Use(auth middleware), by Group(prefix, auth middleware) or by its parent", 3)
+	r.rule("C13.O2", "every group reaching a registration is protected by a dominating Use(auth middleware), by Group(prefix, auth middleware) or by its parent", 1)
 	r.rule("C13.O3", "an auth middleware calls (*RouterAuthorizationCheck).Check with its own *gin.Context on every path, and never calls Next before", 1)
 	r.rule("C13.O4", "in Check, every path on the err != nil edge passes c.Abort() and a response with constant status 401", 2)
 	r.rule("C13.O5", "every implementation of NFContext.AuthorizationCheck returns nil only on the !OAuth2Required edge, otherwise the result of oauth.VerifyOAuth(token, ...)", 2)
@@ -451,8 +451,10 @@ func (x *c13) checkO4() {
 	if len(authCall.Call.Args) >= 1 {
 		for d := range depSet(f, authCall.Call.Args[0]) {
 			if call, ok := d.(*ssa.Call); ok {
-				if obj := calleeObj(&call.Call); obj != nil && obj.Name() == "Get" && len(call.Call.Args) >= 2 {
-					if s, ok := constString(call.Call.Args[1]); ok && s == "Authorization" {
+				// http.Header.Get("Authorization") or gin's (*Context).GetHeader("Authorization")
+				if obj := calleeObj(&call.Call); obj != nil && obj.Pkg() != nil && len(call.Call.Args) >= 2 &&
+					((obj.Name() == "Get" && (obj.Pkg().Path() == "net/http" || obj.Pkg().Path() == "net/textproto")) || (obj.Name() == "GetHeader" && obj.Pkg().Path() == ginPath)) {
+					if s, ok := constString(call.Call.Args[1]); ok && strings.EqualFold(s, "Authorization") {
 						tokOK = true
 					}
 				}
